@@ -127,6 +127,9 @@ def condense_dataset(
                   meta_prefix="")
 
     h5_cond.require_group("logs")
+    # The "events" group only exists if `rtdc_copy` copied a feature; it is
+    # missing for .tdms data and for .rtdc data without scalar features.
+    h5_cond.require_group("events")
 
     # scalar features
     feats_sc = ds.features_scalar
